@@ -556,6 +556,12 @@ func DeriveTranslation(rx, ry sdkmath.Int, minPrice, maxPrice sdkmath.LegacyDec)
 		alpha := sqrtM.Quo(sqrtXOverY).Sub(sqrtXOverY.Quo(sqrtL))
 		// sqrtP = sqrt(P) = {(alpha + sqrt(alpha^2 + 4)) / 2} * sqrt(rx/ry)
 		sqrtP = alpha.Add(sqrt(alpha.Power(2).Add(fourDec))).QuoInt64(2).Mul(sqrtXOverY)
+		// the subtraction above loses digits when one reserve dwarfs the other; the price never leaves [M, L]
+		if sqrtP.GT(sqrtL) {
+			sqrtP = sqrtL
+		} else if sqrtP.LT(sqrtM) {
+			sqrtP = sqrtM
+		}
 	}
 
 	var sqrtK sdkmath.LegacyDec
